@@ -1,3 +1,4 @@
+import PetlProofs.HeapReviewedBodies
 /-
   Hand-reviewed exceptions to the ownership analysis (property C03).  Hand-written: the translator never
   touches this file.
@@ -30,5 +31,10 @@ def reviewed : List String := [
   "util.materialise.columns", "util.materialise.facetcolumns", "util.materialise.CacheView.__iter__",
   "util.vis._look_grid", "util.vis._look_simple", "util.vis._look_minimal",
   "io.sources.PopenSource.open", "io.sources._register_handler"]
+
+/-- a function is exempt only if it is on the reviewed list AND its body still translates to exactly the program that
+    was reviewed (PetlProofs/HeapReviewedBodies.lean) -/
+def isReviewed (f : String × Prog) : Bool :=
+  reviewed.contains f.1 && reviewedBodies.any (fun r => r.1 == f.1 && decide (r.2 = f.2))
 
 end Petl.Heap
